@@ -158,15 +158,18 @@ theorem unpack_ne_panic (bytes : Bytes) (count : UInt16) (out : List Bool) :
 
 /-! ### `Coils::from_bools` and the accessors -/
 
-/-- the value `from_bools` builds over any sufficiently large target -/
+/-- the value `from_bools` builds over any sufficiently large target: the spec's packed field and the
+    count — nothing of the target (neither its capacity nor its prior contents) remains in the value -/
 theorem from_bools_spec (bs : List Bool) (t : Bytes) (hne : bs ≠ []) (hl : packedCoilsLen bs.length ≤ t.length) :
-    Coils.fromBools bs t =
-      .ok ⟨Spec.packBits bs ++ t.drop (packedCoilsLen bs.length), bs.length⟩ := by
+    Coils.fromBools bs t = .ok ⟨Spec.packBits bs, bs.length⟩ := by
   unfold Coils.fromBools
   have : bs.isEmpty = false := by cases bs with
     | nil => exact absurd rfl hne
     | cons _ _ => rfl
-  simp [this, pack_spec bs t hl]
+  simp only [this, Bool.false_eq_true, if_false, pack_spec bs t hl, Res.map_ok]
+  congr 2
+  rw [List.take_append_of_le_length (by rw [packBits_length]; exact Nat.le_refl _)]
+  exact List.take_of_length_le (by rw [packBits_length]; exact Nat.le_refl _)
 
 /-- an empty list is reported as an error -/
 theorem from_bools_empty (t : Bytes) : Coils.fromBools [] t = .err .bufferSize := by
@@ -192,7 +195,7 @@ theorem from_bools_ne_panic (bs : List Bool) (t : Bytes) : Coils.fromBools bs t 
 theorem from_bools_total (bs : List Bool) (t : Bytes) :
     Coils.fromBools bs t =
       if bs = [] ∨ t.length < packedCoilsLen bs.length then .err .bufferSize
-      else .ok ⟨Spec.packBits bs ++ t.drop (packedCoilsLen bs.length), bs.length⟩ := by
+      else .ok ⟨Spec.packBits bs, bs.length⟩ := by
   by_cases hne : bs = []
   · subst hne; simp [from_bools_empty]
   · by_cases hl : packedCoilsLen bs.length ≤ t.length
@@ -204,11 +207,10 @@ theorem from_bools_ok (bs : List Bool) (t : Bytes) (hne : bs ≠ []) (hl : packe
     ∃ c, Coils.fromBools bs t = .ok c ∧ c.quantity = bs.length ∧
       c.data.take c.packedLen = Spec.packBits bs ∧ c.packedLen ≤ c.data.length := by
   refine ⟨_, from_bools_spec bs t hne hl, rfl, ?_, ?_⟩
-  · show (Spec.packBits bs ++ _).take (packedCoilsLen bs.length) = _
-    rw [List.take_append_of_le_length (by rw [packBits_length]; omega)]
+  · show (Spec.packBits bs).take (packedCoilsLen bs.length) = _
     exact List.take_of_length_le (by rw [packBits_length]; omega)
-  · show packedCoilsLen bs.length ≤ (Spec.packBits bs ++ _).length
-    rw [List.length_append, packBits_length]; omega
+  · show packedCoilsLen bs.length ≤ (Spec.packBits bs).length
+    rw [packBits_length]; omega
 
 /-- every observation of a value built by `from_bools` (over any target): length, indexed access for
     EVERY index value, iteration, packed length, emptiness -/
@@ -224,7 +226,7 @@ theorem get_from_bools (bs : List Bool) (t : Bytes) (c : Coils) (h : Coils.fromB
   · rename_i hc
     cases h
     have hne : bs ≠ [] := fun e => hc (Or.inl e)
-    refine ⟨rfl, fun i => Coils.get_packBits bs _ i, Coils.iter_packBits bs _, rfl, ?_⟩
+    refine ⟨rfl, fun i => by simpa using Coils.get_packBits bs [] i, by simpa using Coils.iter_packBits bs [], rfl, ?_⟩
     cases bs with
     | nil => exact absurd rfl hne
     | cons _ _ => simp [Coils.isEmpty]
@@ -237,11 +239,32 @@ theorem copy_from_bools (bs : List Bool) (t : Bytes) (c : Coils) (h : Coils.from
   · simp at h
   · rename_i hc
     have hne : bs ≠ [] := fun e => hc (Or.inl e)
-    obtain ⟨c', h', _, h3, h4⟩ := from_bools_ok bs t hne (by omega)
-    rw [from_bools_total, if_neg hc] at h'
-    cases h; cases h'
-    unfold Coils.copyBytes
-    rw [if_neg (by omega), h3]
+    cases h
+    rw [Coils.copyBytes_eq, Coils.wire_packBits, if_neg]
+    show ¬ (Spec.packBits bs).length < packedCoilsLen bs.length
+    rw [packBits_length]; omega
+
+/-! ### the value is a function of the booleans alone -/
+
+/-- **value independence**: whenever `from_bools` succeeds — over ANY target, whatever its capacity and
+    prior contents — the value is the spec's packed field of the booleans and their count, nothing else -/
+theorem from_bools_value (bs : List Bool) (t : Bytes) (c : Coils) (h : Coils.fromBools bs t = .ok c) :
+    c = ⟨Spec.packBits bs, bs.length⟩ := by
+  rw [from_bools_total] at h
+  split at h
+  · simp at h
+  · cases h; rfl
+
+/-- two calls on the same booleans with ANY two targets (different capacities, different contents) give
+    IDENTICAL values (structural equality of the raw slice and the count, not just equal observations) -/
+theorem from_bools_value_independent (bs : List Bool) (t₁ t₂ : Bytes) (c₁ c₂ : Coils)
+    (h₁ : Coils.fromBools bs t₁ = .ok c₁) (h₂ : Coils.fromBools bs t₂ = .ok c₂) : c₁ = c₂ := by
+  rw [from_bools_value bs t₁ c₁ h₁, from_bools_value bs t₂ c₂ h₂]
+
+/-- non-vacuity: a tight clean target and a larger dirty one give the same value -/
+example : Coils.fromBools [true, false, true] [0x00] = .ok ⟨[0x05], 3⟩ ∧
+    Coils.fromBools [true, false, true] [0xFF, 0xAA, 0x55] = .ok ⟨[0x05], 3⟩ := by
+  constructor <;> decide +kernel
 
 /-! ### for the encoder properties -/
 
@@ -255,8 +278,8 @@ theorem built_coils_encodable (bs : List Bool) (t : Bytes) (c : Coils) (a : UInt
   · simp at h
   · rename_i hc
     cases h
-    have hl : packedCoilsLen bs.length ≤ (Spec.packBits bs ++ t.drop (packedCoilsLen bs.length)).length := by
-      rw [List.length_append, packBits_length]; omega
+    have hl : packedCoilsLen bs.length ≤ (Spec.packBits bs).length := by
+      rw [packBits_length]; omega
     exact ⟨⟨h255, hl⟩, ⟨h255, hl⟩, ⟨h255, hl⟩⟩
 
 /-- the wire images of those PDUs are the spec's PDUs of the coils alone (no trace of the target) -/
@@ -269,12 +292,8 @@ theorem built_coils_image (bs : List Bool) (t : Bytes) (c : Coils) (a : UInt16)
   split at h
   · simp at h
   · cases h
-    have h3 : (Spec.packBits bs ++ t.drop (packedCoilsLen bs.length)).take ((bs.length + 7) / 8)
-        = Spec.packBits bs := by
-      rw [List.take_append_of_le_length (by rw [packBits_length]; exact Nat.le_refl _)]
-      exact List.take_of_length_le (by rw [packBits_length]; exact Nat.le_refl _)
-    have hp : (Coils.mk (Spec.packBits bs ++ t.drop (packedCoilsLen bs.length)) bs.length).packedLen
-        = (bs.length + 7) / 8 := rfl
+    have h3 := Coils.wire_packBits bs
+    have hp : (Coils.mk (Spec.packBits bs) bs.length).packedLen = (bs.length + 7) / 8 := rfl
     refine ⟨?_, ?_, ?_⟩
     · simp only [Request.image, Coils.len, Spec.reqBytes, Spec.word, Spec.hi, Spec.lo, be16, hp, h3]
       simp
@@ -325,7 +344,7 @@ example : unpackCoils [0xCD] 9 (List.replicate 10 true) = .err .bufferSize := by
 example : unpackCoils [0xCD, 0x01] 9 (List.replicate 8 true) = .err .bufferSize := by decide +kernel
 
 example : Coils.fromBools [true, false, true, true, false, false, true, true, true] [0xFF, 0xFF, 0xAA] =
-    .ok ⟨[0xCD, 0x01, 0xAA], 9⟩ := by decide +kernel
+    .ok ⟨[0xCD, 0x01], 9⟩ := by decide +kernel
 
 example : (Coils.mk [0xCD, 0x01, 0xAA] 9).get 8 = .ok (some true) := by decide +kernel
 example : (Coils.mk [0xCD, 0x01, 0xAA] 9).get 9 = .ok none := by decide +kernel
@@ -339,6 +358,6 @@ example : (Coils.mk [0xCD, 0x01, 0xAA] 9).iter =
 example : ∃ c, Coils.fromBools [true, false, true, true, false, false, true, true, true] [0xFF, 0xFF, 0xAA] = .ok c ∧
     (Request.writeMultipleCoils 5 c).encode (List.replicate 9 0x55) =
       .ok (8, [0x0F, 0, 5, 0, 9, 2, 0xCD, 0x01, 0x55]) :=
-  ⟨⟨[0xCD, 0x01, 0xAA], 9⟩, by decide +kernel, by decide +kernel⟩
+  ⟨⟨[0xCD, 0x01], 9⟩, by decide +kernel, by decide +kernel⟩
 
 end Modbus.C16
